@@ -114,6 +114,9 @@ pub struct Gen {
     pub used: BTreeMap<&'static str, usize>,
     /// index of the expression hole that gets a wrongly typed expression (ill-typed stream)
     pub ill_at: Option<usize>,
+    /// statements that are ill-typed on their own (e.g. an infinite-type closure); when set, the
+    /// ill hole becomes a block that starts with them and ends in a well-typed value
+    pub ill_snippet: Option<String>,
     holes: usize,
     pub ill_done: Option<String>,
     budget: usize,
@@ -125,7 +128,7 @@ impl Gen {
     pub fn new(rng: Rng, feat: Feat) -> Gen {
         Gen {
             rng, feat, structs: vec![], enums: vec![], traits: vec![], fns: vec![], methods: vec![], gmethods: vec![], has_lst: false, counter: 0,
-            used: BTreeMap::new(), ill_at: None, holes: 0, ill_done: None, budget: 400,
+            used: BTreeMap::new(), ill_at: None, ill_snippet: None, holes: 0, ill_done: None, budget: 400,
         }
     }
 
@@ -271,6 +274,12 @@ impl Gen {
                 Ty::Unit => Ty::Int("int32"),
                 _ => Ty::Bool,
             };
+            if let Some(snip) = self.ill_snippet.clone() {
+                let tail = self.leaf(t, env);
+                let e = self.blk(t, env, format!("{} {}", snip, tail));
+                self.ill_done = Some(format!("infinite-type snippet where {} expected", self.show(t)));
+                return e;
+            }
             let e = match self.rng.below(4) {
                 0 => "undefined_name".to_string(),
                 1 => format!("undefined_fn({})", self.literal(&Ty::Int("int32")).unwrap()),
